@@ -6,9 +6,10 @@ OPS = [1, 2, 3, 4, 5, 6]  # Add Lsh Rsh Mul Div Nand
 
 
 class Table:
-    def __init__(self):
+    def __init__(self, tails=None, tail_p=0.2):
         self.nodes = []
         self.index = {}
+        self.tails, self.tail_p = tails, tail_p    # rng: some constants get live bytes behind them (see const)
 
     def _intern(self, n):
         k = repr(sorted(n.items()))
@@ -22,6 +23,8 @@ class Table:
         """tail: bytes the harness puts *behind* the constant in its backing array (the constant is made by narrowing
         a wider one, as the lifter and the memories do); invisible to the specification - the value is bs."""
         n = {"k": "c", "w": len(bs), "b": list(bs)}
+        if tail is None and self.tails is not None and self.tails.random() < self.tail_p:
+            tail = [self.tails.choice([0xFF, 0xA5, 1])] * self.tails.choice([1, 3, 8])
         if tail:
             n["x"] = list(tail)
         return self._intern(n)
